@@ -1,4 +1,205 @@
+import Proofs.Core
+import Proofs.NNSpecLemmas
 import SynapModel.Ops
+import SynapModel.LayerArgs
+import Mathlib.Algebra.Order.Field.Basic
+/-!
+# C06 — Forward results of nn ops / layers / losses match their documented definitions
+
+Statements about `Synap.Kernels` (NN part) and `Synap.LayerArgs`, for every input size, channel
+count, batch size and every geometry.
+-/
 namespace Props.C06
-theorem placeholder : True := trivial
+open Synap Synap.NDArray Synap.Np Synap.Kernels Synap.LayerArgs Proofs.Core Proofs.NNSpec
+
+/-- **Output length `⌊(L + 2p − d(k−1) − 1)/s⌋ + 1`**: exactly the number of window positions that
+    fit into the padded input, and no output (rejection) exactly when not even one window fits. -/
+theorem conv_out_size (L k s p d : Nat) (hk : 0 < k) (hs : 0 < s) (hd : 0 < d) :
+    (convOut L k s p d = none ↔ L + 2 * p < d * (k - 1) + 1) ∧
+    (∀ n, convOut L k s p d = some n →
+      n = (L + 2 * p - d * (k - 1) - 1) / s + 1 ∧ 0 < n ∧
+      ∀ t, t < n ↔ t * s + d * (k - 1) + 1 ≤ L + 2 * p) := by
+  have hne : ¬ (k = 0 ∨ s = 0 ∨ d = 0) := by omega
+  unfold convOut
+  rw [if_neg hne]
+  generalize d * (k - 1) = D
+  constructor
+  · by_cases h : L + 2 * p < D + 1
+    · simp [h]
+    · simp [h]
+  · intro n hn
+    by_cases h : L + 2 * p < D + 1
+    · simp [h] at hn
+    · rw [if_neg h] at hn
+      have hn' := Option.some.inj hn
+      subst hn'
+      refine ⟨rfl, Nat.succ_pos _, fun t => ?_⟩
+      rw [Nat.lt_succ_iff, Nat.le_div_iff_mul_le hs]
+      omega
+
+/-- a window offset reads the input at `t·s + a·d − p` when that lies inside, padding otherwise -/
+theorem winPos_spec (L s p d t a : Nat) :
+    (∀ q, winPos L s p d t a = some q ↔ (p ≤ t * s + a * d ∧ q = t * s + a * d - p ∧ q < L)) := by
+  intro q
+  unfold winPos
+  simp only []
+  by_cases h1 : t * s + a * d < p
+  · rw [if_pos h1]
+    constructor
+    · intro h; cases h
+    · rintro ⟨h, _⟩; omega
+  · rw [if_neg h1]
+    by_cases h2 : t * s + a * d - p < L
+    · rw [if_pos h2]
+      constructor
+      · intro h
+        have := Option.some.inj h
+        exact ⟨by omega, this.symm, by omega⟩
+      · rintro ⟨_, rfl, _⟩; rfl
+    · rw [if_neg h2]
+      constructor
+      · intro h; cases h
+      · rintro ⟨_, rfl, h⟩; exact absurd h h2
+
+variable {K : Type} [Field K] [LinearOrder K] [IsStrictOrderedRing K]
+
+/-- **conv1d is a cross-correlation**: `out[n,o,t] = b[o] + Σ_{c,a} w[o,c,a]·xpad[n,c,t·s+a·d]`,
+    of shape `(N, C_out, L_out)`. -/
+theorem conv1d_is_cross_correlation (x w y : NDArray K) (b : Option (NDArray K)) (s p d : Nat)
+    (h : conv1dForward x w b s p d = some y) :
+    ∃ n c l co k lo, x.shape = [n, c, l] ∧ w.shape = [co, c, k] ∧ convOut l k s p d = some lo ∧ y.shape = [n, co, lo] ∧
+      ∀ bn o t, bn < n → o < co → t < lo →
+        y.get [bn, o, t] =
+          ((List.range c).flatMap (fun cc => (List.range k).map (fun a =>
+            w.get [o, cc, a] * readPad1 x 0 bn cc (winPos l s p d t a)))).sum
+          + (match b with | some bv => bv.data.getD o 0 | none => 0) := by
+  unfold conv1dForward at h
+  split at h
+  · rename_i n c l co ci k hxs hws
+    by_cases hci : ci ≠ c
+    · rw [if_pos hci] at h; cases h
+    · rw [if_neg hci] at h
+      have hci' : ci = c := by simpa using hci
+      subst hci'
+      split at h
+      · cases h
+      · rename_i lo hlo
+        split_ifs at h
+        have hy := Option.some.inj h
+        subst hy
+        refine ⟨n, ci, l, co, k, lo, hxs, hws, hlo, rfl, ?_⟩
+        intro bn o t hbn ho ht
+        rw [get_ofFn _ _ _ (by simp [validIdx, hbn, ho, ht])]
+        cases b <;> simp [getI]
+  · cases h
+
+/-- **padding='same' preserves the length** for stride 1 whenever `d·(k−1)` is even (otherwise the
+    layer is rejected, since only symmetric padding is available). -/
+theorem same_preserves_length (k d L : Nat) (hk : 0 < k) (hd : 0 < d) (hL : 0 < L) :
+    ((d * (k - 1)) % 2 = 0 → ∃ p, conv1dArgs k 1 none d = some (k, 1, p, d) ∧ convOut L k 1 p d = some L) ∧
+    ((d * (k - 1)) % 2 ≠ 0 → conv1dArgs k 1 none d = none) ∧
+    (∀ s, s ≠ 1 → conv1dArgs k s none d = none) := by
+  refine ⟨?_, ?_, ?_⟩
+  · intro he
+    refine ⟨d * (k - 1) / 2, ?_, convOut_same L k d hk hd hL he⟩
+    simp [conv1dArgs, he]
+  · intro hne
+    simp [conv1dArgs, hne]
+  · intro s hs
+    simp [conv1dArgs, hs]
+
+theorem same_preserves_size_2d (k d : IT) (H W : Nat) (hH : 0 < H) (hW : 0 < W)
+    (hk : 0 < k.bc.1 ∧ 0 < k.bc.2) (hd : 0 < d.bc.1 ∧ 0 < d.bc.2) (g : Geo2)
+    (h : conv2dArgs k (.int 1) .same d = some g) : outSize2 g H W = some (H, W) := by
+  unfold conv2dArgs at h
+  simp only [] at h
+  have hs : (IT.int 1).bc = (1, 1) := rfl
+  rw [hs] at h
+  rw [if_neg (by simp)] at h
+  split_ifs at h with hodd
+  have hg := Option.some.inj h
+  subst hg
+  have he1 : (d.bc.1 * (k.bc.1 - 1)) % 2 = 0 := by omega
+  have he2 : (d.bc.2 * (k.bc.2 - 1)) % 2 = 0 := by omega
+  unfold outSize2
+  simp only []
+  rw [convOut_same H _ _ hk.1 hd.1 hH he1, convOut_same W _ _ hk.2 hd.2 hW he2]
+
+/-- **int-or-tuple arguments and default stride**: an int means the same value on both axes; a
+    pooling layer without stride uses its kernel size. -/
+theorem pool_default_stride (k : IT) (p d : IT) (k1 p1 d1 : Nat) :
+    (pool2dArgs k none p d).s = k.bc ∧ (pool2dArgs k none p d).k = k.bc ∧
+    (IT.int k1).bc = (k1, k1) ∧ pool1dArgs k1 none p1 d1 = (k1, k1, p1, d1) := by
+  exact ⟨rfl, rfl, rfl, rfl⟩
+
+/-- **Max pooling: padding never wins.**  Whenever a window contains at least one real input
+    position, the pooled value is the value at a real position of that window and dominates every
+    real position of the window (the −∞ padding is never selected). -/
+theorem maxpool_padding_never_wins (x y : NDArray K) (negInf : K) (k s p d : Nat)
+    (h : maxPool1dForward x negInf k s p d = some y) (n c l lo : Nat) (hx : x.shape = [n, c, l])
+    (hlo : convOut l k s p d = some lo) (bn cc t : Nat) (hbn : bn < n) (hcc : cc < c) (ht : t < lo)
+    (hreal : ∃ a q, a < k ∧ winPos l s p d t a = some q) :
+    (∃ a q, a < k ∧ winPos l s p d t a = some q ∧ y.get [bn, cc, t] = x.get [bn, cc, q]) ∧
+    (∀ a q, a < k → winPos l s p d t a = some q → x.get [bn, cc, q] ≤ y.get [bn, cc, t]) := by
+  have hgeo : poolGeom1 x k s p d = some (n, c, l, lo) := by
+    simp [poolGeom1, hx, hlo]
+  simp only [maxPool1dForward, hgeo, Option.bind_eq_bind, Option.bind_some, Option.pure_def,
+    Option.some.injEq] at h
+  subst h
+  rw [get_ofFn _ _ _ (by simp [validIdx, hbn, hcc, ht])]
+  simp only [getI, List.getD_cons_zero, List.getD_cons_succ]
+  -- the window values
+  have hvals : ∀ (a : Nat) (w : K),
+      ((List.range k).map (fun a => (winPos l s p d t a).map (fun q => x.get [bn, cc, q])))[a]? = some (some w) ↔
+        a < k ∧ ∃ q, winPos l s p d t a = some q ∧ x.get [bn, cc, q] = w := by
+    intro a w
+    rw [List.getElem?_map]
+    by_cases ha : a < k
+    · rw [List.getElem?_range ha]
+      simp [ha, Option.map_eq_some_iff]
+    · rw [List.getElem?_eq_none (by simpa using ha)]
+      simp [ha]
+  obtain ⟨a0, q0, ha0, hq0⟩ := hreal
+  obtain ⟨v, kk, hfm, hk1, hk2⟩ := firstMax_spec
+    ((List.range k).map (fun a => (winPos l s p d t a).map (fun q => x.get [bn, cc, q])))
+    ⟨a0, x.get [bn, cc, q0], (hvals a0 _).2 ⟨ha0, q0, hq0, rfl⟩⟩
+  rw [hfm]
+  simp only []
+  constructor
+  · obtain ⟨hlt, q, hq, hv⟩ := (hvals kk v).1 hk1
+    exact ⟨kk, q, hlt, hq, hv.symm⟩
+  · intro a q ha hq
+    exact hk2 a _ ((hvals a _).2 ⟨ha, q, hq, rfl⟩)
+
+/-- **Average pooling counts the padded zeros**: the sum of the window (padding read as 0) divided
+    by the full kernel size `k`. -/
+theorem avgpool_counts_padding (x y : NDArray K) (k s p d : Nat) (h : avgPool1dForward x k s p d = some y)
+    (n c l lo : Nat) (hx : x.shape = [n, c, l]) (hlo : convOut l k s p d = some lo)
+    (bn cc t : Nat) (hbn : bn < n) (hcc : cc < c) (ht : t < lo) :
+    y.get [bn, cc, t] = ((List.range k).map (fun a => readPad1 x 0 bn cc (winPos l s p d t a))).sum / (k : K) := by
+  have hgeo : poolGeom1 x k s p d = some (n, c, l, lo) := by
+    simp [poolGeom1, hx, hlo]
+  simp only [avgPool1dForward, hgeo, Option.bind_eq_bind, Option.bind_some, Option.pure_def,
+    Option.some.injEq] at h
+  subst h
+  rw [get_ofFn _ _ _ (by simp [validIdx, hbn, hcc, ht])]
+  simp only [getI, List.getD_cons_zero, List.getD_cons_succ]
+
+/-- **Loss value and reductions**: NLL picks minus the prediction at the label, one value per
+    sample (shape `(N,)`). -/
+theorem nll_spec (p y : NDArray K) (labels : List Nat) (h : nllForward p labels = some y) :
+    ∃ n c, p.shape = [n, c] ∧ y.shape = [n] ∧ labels.length = n ∧
+      ∀ i, i < n → y.get [i] = - p.get [i, labels.getD i 0] := by
+  unfold nllForward at h
+  split at h
+  · rename_i n c hps
+    split_ifs at h with hl
+    have hy := Option.some.inj h
+    subst hy
+    refine ⟨n, c, hps, rfl, hl.1, ?_⟩
+    intro i hi
+    rw [get_ofFn _ _ _ (by simp [validIdx, hi])]
+    simp only [getI, List.getD_cons_zero]
+  · cases h
+
 end Props.C06
